@@ -566,6 +566,9 @@ def finish(ctx):
     # runs against another copy of the repository (seeded-change tooling) must not
     # overwrite the evidence of the registered checks
     evdir = os.path.join(VERIF, "evidence") if os.path.realpath(REPO) == "/repo" else os.path.join(VERIF, "evidence", "other-repo")
+    if getattr(ctx, "no_proof", False) or ctx.replay:
+        # development runs (--no-proof) and replays are not records of a registered check
+        evdir = os.path.join(VERIF, "evidence", "dev")
     os.makedirs(evdir, exist_ok=True)
     with open(os.path.join(evdir, ctx.pid + ".json"), "w") as f:
         json.dump(ev, f, indent=1, default=repr)
@@ -597,6 +600,7 @@ def main(argv):
     if REPO not in sys.path:
         sys.path.insert(0, REPO)
     ctx = Ctx(a.pid, a.tier, seed, a.replay)
+    ctx.no_proof = a.no_proof
     try:
         ctx.mod = importlib.import_module("harness.props." + a.pid.lower())
         if not a.no_proof:
